@@ -201,10 +201,15 @@ func (p *proxy) ApplyRaftReqs(ctx context.Context, in *syncerpb.RaftReqs) (*sync
 		return nil, errors.New("proxy broken")
 	}
 	res := "ok"
+	opk := "B:"
 	if rsp.ErrCode != 0 || rsp.ErrMsg != "" {
-		res = "err"
+		// the real sender never ships a malformed entry: an error answer here is the handler's 4 s proposal time-out
+		// on an overloaded machine (the entries may still commit).  The answer of such a call is not compared
+		// (op BE), its effect is.
+		res = "any"
+		opk = "BE:"
 	}
-	p.observe("B:"+strings.Join(ents, ":"), res)
+	p.observe(opk+strings.Join(ents, ":"), res)
 	if fault == 1 {
 		return nil, errors.New("injected: response lost")
 	}
